@@ -257,6 +257,10 @@ class Scheduler(Hooks):
         self.log = {}           # request index -> list of events
         self.index = {}         # greenlet -> request index
         self.observe = None     # callback(session, event) for harnesses
+        # context bound (CHESS-style): at most this many switches away from
+        # a request that could have continued; None = unbounded
+        self.max_preemptions = None
+        self.preemptions = 0
 
     def _me(self):
         g = greenlet.getcurrent()
@@ -325,8 +329,16 @@ class Scheduler(Hooks):
             self.index[g] = i
         alive = list(range(len(thunks)))
         try:
+            last = None
             while alive:
-                k = alive[symex.choose(len(alive), 'sched')]
+                if self.max_preemptions is not None and last in alive and \
+                        self.preemptions >= self.max_preemptions:
+                    k = last        # bound reached: run on to completion
+                else:
+                    k = alive[symex.choose(len(alive), 'sched')]
+                    if last in alive and k != last:
+                        self.preemptions += 1
+                last = k
                 self.trace.append(k)
                 gls[k].switch()
                 if gls[k].dead:
